@@ -161,7 +161,7 @@ def run(ctx):
                            "convention-free part (continuity at M -> 0, rejection) is checked for g1")
     ctx.tlc_check("MC_TMC", common.cfg_text({}, invariants=["Inv_Zero", "Inv_Apfel", "Inv_FL", "Inv_XiBelowX"]), coverage=False,
                   min_states=200, min_depth=2)
-    obls = ctx.tlc_emit("Emit_C10", common.cfg_text({}, spec=None))
+    obls = ctx.tlc_emit("Emit_C10", common.cfg_text(dict(DEEP=not q), spec=None))
     groups = {}
     for o in obls:
         for proc in (("CC",) if q else ("CC", "NC")):
